@@ -103,6 +103,18 @@ def run_case(ctx, i, rng):
                 for c_ in d_.children:
                     if c_.name and rng.random() < 0.5:
                         c_["EDIF.identifier"] = c_.name
+    if i % 3 == 1:
+        # instances outside the top hierarchy that have NO parent: a free-standing instance and a child taken out of its
+        # definition but kept by the caller; both still share the definitions they reference
+        hd = [d_ for l in n.libraries for d_ in l.definitions if (d_.children or d_.cables) and d_.references and
+              d_ is not n.top_instance.reference]
+        keep_alive = []
+        for d_ in rng.sample(hd, min(len(hd), 2)):
+            f_ = sdn.Instance("free_%d" % len(keep_alive))
+            f_.reference = d_
+            keep_alive.append(f_)
+            ctx.count("parentless_sharers")
+        run_case._keep = keep_alive
     e0 = Elab(n, max_occ=2500)
     if e0.truncated:
         ctx.count("discarded_too_large")
